@@ -109,7 +109,13 @@ impl X509Certificate {
 	}
 
 	pub fn expires_in(&self) -> Result<Duration, Error> {
+		#[cfg(not(feature = "breard_r_acmed_verif"))]
 		let now = Asn1Time::days_from_now(0)?;
+		#[cfg(feature = "breard_r_acmed_verif")]
+		let now = match crate::verif_clock::get() {
+			Some(t) => Asn1Time::from_unix(t as _)?,
+			None => Asn1Time::days_from_now(0)?,
+		};
 		let not_after = self.inner_cert.not_after();
 		let diff = now.diff(not_after)?;
 		let nb_secs = diff.days * 24 * 60 * 60 + diff.secs;
